@@ -57,7 +57,9 @@ def build(tier):
         u = unit_for(tt, pol); units.append(u)
         d = 1
         def kw(nx, ny, share=False):
-            bound = {"unwind": 6, "note": "x has %d and y has %d disjuncts%s, space dimension %d; disjunct boxes (bounds, special/open bits, status flags), reduced flags and ghost point arbitrary; loops unwound with unwinding assertions" % (nx, ny, " (first ones sharing one representation)" if share else "", d)}
+            bound = {"unwind": max(nx + ny, 2) + 1,
+                     "unwindset": "ps_nth.0:6,ps_count.0:7,ps_sat.0:6,ps_omega_reduced.0:6,ps_omega_reduced.1:6,ps_wf.0:6",   # the constant-bound loops of the spec functions
+                     "note": "x has %d and y has %d disjuncts%s, space dimension %d; disjunct boxes (bounds, special/open bits, status flags), reduced flags and ghost point arbitrary; loops unwound with unwinding assertions" % (nx, ny, " (first ones sharing one representation)" if share else "", d)}
             return dict(bounded=bound, timeout=3000, object_bits=11, defs={"BOX_D": d, "GHOST_RANGE": "((ex_t)%d)" % (1 << (u.defs["T_W"] + 1))}, split_post=False,
                         stubs=["c12_ghost.c", "c17_ghost.c", "c09_ps.c"], harness_pre=setup(nx, ny, share), group="powerset %s %s" % (tt, pol), mem_gb=40)
         shapes1 = [(2, 0)] if tier == "quick" else [(0, 0), (1, 0), (2, 0)]
@@ -67,7 +69,7 @@ def build(tier):
                               reach=[("point in the union", "G_ssatX0")] if nx else [], **kw(nx, ny)))
             T.append(Task("%s/%s/add_disjunct/x%d" % (tt, pol, nx), u, "FN_s_add_disjunct", ["C09/powerset.h"], svars(), "FN_s_add_disjunct(&G_sx, &G_d)",
                           reach=[("point in the new disjunct only", "!G_ssatX0 && G_dsat0")], **kw(nx, ny)))
-        shapes2 = [(2, 1), (1, 2)] if tier == "quick" else [(1, 1), (2, 1), (1, 2), (2, 2)]
+        shapes2 = [(1, 1)] if tier == "quick" else [(1, 1), (2, 1), (1, 2)]
         for (nx, ny) in shapes2:
             for (op, lhs, cast) in OPS2:
                 T.append(Task("%s/%s/%s/x%dy%d" % (tt, pol, op, nx, ny), u, "FN_s_" + op, ["C09/powerset.h"], svars(), "%sFN_s_%s(%s&G_sx, %s&G_sy)" % (lhs, op, cast, cast),
